@@ -440,7 +440,8 @@ func negServe(w *tr.Writer, conn negLink, sc negConn, n int, opDone <-chan struc
 	}
 	// the script is over: keep reading (a presence after success, a stream close after a failure)
 	for {
-		timeout := 1500 * time.Millisecond
+		// short reads: as soon as the attempt has returned (opDone) the wait is over
+		timeout := 60 * time.Millisecond
 		var e *srv.Elem
 		var err error
 		if pending != nil {
